@@ -27,7 +27,9 @@ EXPLANATION = (
     ' (R8) who-may-delete census (shared with C09.R3).'
     ' (R10) a reused Transaction object starts empty: begin() resets _written_files / _inflight_markers (a non-deleting rollback keeps them on purpose) - shared with C01.R5.'
     " R1 also requires the local backend (rename-published, nothing raising after the rename) to report clean write failures as clean; R7 requires the CAS conflict code set to be exactly S3's precondition-failure answers."
-    ' R1 is decided by scenario for the three backend kinds (which write is reached; what a precondition failure / any other failure is reported as); R3 / R4 decide whether a _rollback(...) call deletes by binding its arguments (bool or enum) and walking _rollback.')
+    ' R1 is decided by scenario for the three backend kinds (which write is reached; what a precondition failure / any other failure is reported as); R3 / R4 decide whether a _rollback(...) call deletes by binding its arguments (bool or enum) and walking _rollback.'
+    " (R11) a memo consulted instead of a read (a parsed-metadata cache behind refresh()) is keyed by everything that selects what is read: each parameter of the memoising function that reaches the arguments of the computation on a miss also reaches the key - a cache keyed by the version number while the read is selected by the unique file name serves a failed commit's file for the winner's version."
+)
 NOT_DECIDED = ("the resulting table state after each fault; what S3 does with an errored PUT; double faults "
                "at run time")
 
